@@ -139,7 +139,30 @@ class NFA:
         return g
 
 
-def build(body: Body, alpha: Alphabet, fx=None, depth=0, _prefix=(), _sinks=None, _stack=(), _into=None, _retval=False, _consts=None):
+CLOSURE_CALLS = ("core::ops::function::FnOnce::call_once", "core::ops::function::FnMut::call_mut", "core::ops::function::Fn::call")
+
+
+def _closure_args(fx, body, args, key_of, inherited):
+    """closure literals (or closures this body was itself given) among the arguments handed to a spliced callee:
+    {key_of(i): closure fn record} — the callee's `f(..)` on that parameter runs this closure"""
+    out = {}
+    for i, a in enumerate(args):
+        if a.get("k") not in ("move", "copy"):
+            continue
+        os_ = body.origins(a)
+        if len(os_) != 1:
+            continue
+        o = next(iter(os_))
+        if o.kind == "agg" and not o.proj:
+            st = body.blocks[o.site[0]]["s"][o.site[1]]
+            if st["r"].get("ak") == "closure" and st["r"].get("def") in fx.fns:
+                out[key_of(i)] = fx.fns[st["r"]["def"]]
+        elif inherited and o.kind in ("upvar", "arg") and not o.proj and (o.kind, o.site) in inherited:
+            out[key_of(i)] = inherited[(o.kind, o.site)]
+    return out
+
+
+def build(body: Body, alpha: Alphabet, fx=None, depth=0, _prefix=(), _sinks=None, _stack=(), _into=None, _retval=False, _consts=None, _closures=None, _iret_as=None):
     """Event automaton of `body`. With `fx` and depth > 0, unlabelled calls to crate-local functions and unlabelled
     awaits of crate-local coroutines whose own automaton contains call/done events are inlined (bounded depth, no
     recursion): extracting a helper out of a loop does not change the language."""
@@ -177,7 +200,7 @@ def build(body: Body, alpha: Alphabet, fx=None, depth=0, _prefix=(), _sinks=None
                     rl = retval_label(body, st["r"], None)
                     if rl and rl not in ("retval:move", "retval:agg"):
                         nxt = node(bi, pos + 1)
-                        n.add(cur, "iret:%s|%s" % (body.name, rl[len("retval:"):]), nxt, st.get("l"))
+                        n.add(cur, "iret:%s|%s" % (_iret_as or body.name, rl[len("retval:"):]), nxt, st.get("l"))
                         n.has_corr = True
                         cur = nxt
                         pos += 1
@@ -215,7 +238,7 @@ def build(body: Body, alpha: Alphabet, fx=None, depth=0, _prefix=(), _sinks=None
                 rv = "Err" if rty.startswith("core::result::Result<") else ("None" if rty.startswith("core::option::Option<") else None)
                 if rv:
                     mid = node(bi, pos + 1)
-                    n.add(cur, "iret:%s|%s" % (body.name, rv), mid, loc)
+                    n.add(cur, "iret:%s|%s" % (_iret_as or body.name, rv), mid, loc)
                     n.has_corr = True
                     cur = mid
                     pos += 1
@@ -233,13 +256,30 @@ def build(body: Body, alpha: Alphabet, fx=None, depth=0, _prefix=(), _sinks=None
                 if len(srcs) == 1:
                     after_ev = "retval:call@" + next(iter(srcs))
             spliced = False
-            if ev is None and fx is not None and depth > 0 and t["target"] is not None:
+            if ev is None and fx is not None and _closures and t["target"] is not None and t.get("callee") in CLOSURE_CALLS and t["args"]:
+                # `update(&mut table)` on a parameter of this spliced helper that the caller bound to a closure literal:
+                # the closure's body runs here (and what it returns is what the helper returns when it is the tail call)
+                os_ = body.origins(t["args"][0])
+                cl = None
+                if len(os_) == 1:
+                    o_ = next(iter(os_))
+                    if o_.kind in ("upvar", "arg") and not o_.proj:
+                        cl = _closures.get((o_.kind, o_.site))
+                if cl is not None and cl["def"] not in _stack and "pre" in cl:
+                    cb = Body(cl)
+                    sub = _prefix + ((body.name, bi),)
+                    build(cb, alpha, fx, max(depth - 1, 0), sub, (tgt(t["target"]), cancel_s, unwind_s), _stack + (body.name,), n, _retval=(retval and t["dest"] == [0]),
+                          _iret_as=((_iret_as or body.name) if (not top and t["dest"] == [0]) else None))
+                    n.add(cur, None, (sub, 0, 0), loc)
+                    spliced = True
+            if not spliced and ev is None and fx is not None and depth > 0 and t["target"] is not None:
                 cal = _local_sync_callee(fx, t)
                 if cal is not None and cal["def"] not in _stack and cal["def"] != body.name:
                     cb = Body(cal)
-                    if _interesting(cb, alpha):
+                    cls_ = _closure_args(fx, body, t["args"], lambda i: ("arg", i + 1), _closures)
+                    if _interesting(cb, alpha) or cls_:
                         sub = _prefix + ((body.name, bi),)
-                        build(cb, alpha, fx, depth - 1, sub, (tgt(t["target"]), cancel_s, unwind_s), _stack + (body.name,), n, _retval=(retval and t["dest"] == [0]))
+                        build(cb, alpha, fx, depth - 1, sub, (tgt(t["target"]), cancel_s, unwind_s), _stack + (body.name,), n, _retval=(retval and t["dest"] == [0]), _closures=cls_)
                         n.add(cur, None, (sub, 0, 0), loc)
                         spliced = True
             if not spliced and t["target"] is not None:
@@ -265,12 +305,13 @@ def build(body: Body, alpha: Alphabet, fx=None, depth=0, _prefix=(), _sinks=None
                     co = _awaited_local_coroutine(fx, body, ready[1])
                     if co is not None and co["def"] not in _stack and co["def"] != body.name:
                         cb = Body(co)
-                        if _interesting(cb, alpha):
+                        cls_ = _awaited_closure_args(fx, body, ready[1], _closures)
+                        if _interesting(cb, alpha) or cls_:
                             sub = _prefix + ((body.name, bi),)
                             # enum literals passed for parameters of the awaited async fn are fixed for this instance of
                             # its body: announce them (the body's matches on those parameters follow suit)
                             consts = _const_args(fx, body, ready[1])
-                            build(cb, alpha, fx, depth - 1, sub, (tgt(b), cancel_s, unwind_s), _stack + (body.name,), n, _consts=consts)
+                            build(cb, alpha, fx, depth - 1, sub, (tgt(b), cancel_s, unwind_s), _stack + (body.name,), n, _consts=consts, _closures=cls_)
                             entry = (sub, 0, 0)
                             prev = cur
                             for i_, (v_, _st) in sorted(consts.items()):
@@ -427,6 +468,17 @@ def _value_tests(body):
         vtsts[bi] = {val: "vtst:%s|{%s}" % (vid, ",".join(sorted(x for x in vs if x))) for val, vs in table.items()}
     body.__dict__["_vt_cache"] = (vsets, vtsts)
     return vsets, vtsts
+
+
+def _awaited_closure_args(fx, body, poll_bb, inherited):
+    """closures handed to the async fn awaited at poll_bb, keyed by the capture of its coroutine that holds them"""
+    out = {}
+    for o in body.polled_future_origins(poll_bb, plumbing=True):
+        if o.kind != "call":
+            return {}
+        ct = body.call_at(o)
+        out.update(_closure_args(fx, body, ct.get("args", []), lambda i: ("upvar", i), inherited))
+    return out
 
 
 def _const_args(fx, body, poll_bb):
